@@ -118,7 +118,7 @@ REGISTRY = {
     },
     "C12": {
         "level": "proof",
-        "modules": ["CoCoVerif.Props.C12", "CoCoVerif.Props.C01"],
+        "modules": ["CoCoVerif.Props.C12Full", "CoCoVerif.Props.C12", "CoCoVerif.Props.C01"],
         "theorems": _T["C12"] + [P + "C01_partial", P + "table_matches_datasheet"],
         "rule": "cases = the C01 matrix (out-of-range values, wrong registers, wrong modes are part of it) + random programs, README mutations and a "
                 "pool of tricky operand strings for every 7th mnemonic (all in thorough); every ACCEPTED instruction statement is decoded: one "
